@@ -263,6 +263,13 @@ def main():
     seed = c.seed
     tier = c.tier
 
+    # the chains the theorems speak about are the chains the code runs (regenerated Cog.Gen.Chains for
+    # five languages, `schemaLangChain` for jsonschema/openapi) — against the RUNTIME CompilerPasses()
+    runtime = harness(hb, "c05-chainnames")[0][1]
+    modelled = drv(["c05chains"])[0]
+    c.oblige("the pass lists of the 7 languages in Lean equal the runtime CompilerPasses()", runtime == modelled,
+             "runtime: %s\nlean   : %s" % (runtime, modelled))
+
     # (6) witnesses of the counterexample theorems, replayed on the real code
     names = drv(["c05witness list"])[0].split()[1:]
     wlines = drv(["c05witness " + n for n in names])
@@ -287,6 +294,12 @@ def main():
               nontrivial=lambda r: r[1].startswith("false"))
     S.process("c05-parsers", harness(hb, "c05-parsers", n=n(400, 4000), seed=seed, tier=tier, work=WORK),
               nontrivial=lambda r: r[1].startswith(("true", "false")))
+    # the pass models the chain theorems are stated over, on THIS property's inputs
+    cm = harness(hb, "c05-chainmodel", n=n(150, 2500), seed=seed, tier=tier, work=WORK)
+    nd = drv([r[0] for r in cm])
+    cm2 = [r if m != "nondet" else ["-", r[1], r[2], r[0], ""] for r, m in zip(cm, nd)]
+    c.cov["chainmodel_nondet"] = sum(1 for m in nd if m == "nondet")
+    S.process("c05-chainmodel", cm2, nontrivial=lambda r: r[1].startswith("ok"))
     S.process("c05-chains", harness(hb, "c05-chains", n=n(1000, 12000), seed=seed, tier=tier, work=WORK),
               nontrivial=lambda r: r[1].startswith(("true", "false")))
     rows, _, _ = S.process("c05-nameops", harness(hb, "c05-nameops", n=n(5000, 60000), seed=seed, tier=tier, work=WORK,
